@@ -699,6 +699,22 @@ def check_c16(tier, seed):
             elif rc != 0:
                 print(out[-2000:])
                 harness_error("dangle shape %s failed without a Miri UB report" % key)
+    # negative compile probe: a crate without `unsafe` that gives to_dyn! an argument performing an unsafe
+    # operation must be rejected (E0133); if it builds, the macro wraps caller code in its own unsafe block
+    pr = run(["cargo", "build", "--release", "--offline"], cwd=os.path.join(VERIF, "callers", "unsafe_probe"), timeout=1800)
+    if pr.returncode == 0:
+        sig = "C16|to_dyn_admits_unsafe_argument|compile"
+        dest_dir = os.path.join(REPLAYS, prop)
+        os.makedirs(dest_dir, exist_ok=True)
+        dest = os.path.join(dest_dir, "unsafe-probe.probe")
+        open(dest, "w").write("# /verif/callers/unsafe_probe contains no `unsafe` and passes `Reference::from_ptr(p)` to to_dyn!: it must not compile,\n"
+                              "# but `cd /verif/callers/unsafe_probe && cargo build --release --offline` succeeded\nexpect=%s\n" % sig)
+        violations += 1
+        lines.append("VIOLATION property=%s replay=%s" % (prop, dest))
+        lines.append("  signature=%s detail=a crate without unsafe obtained a Reference from a raw pointer through to_dyn!" % sig)
+    elif "E0133" not in pr.stdout:
+        print(pr.stdout[-3000:])
+        harness_error("the unsafe probe crate fails to build for another reason than E0133")
     # accessors the shape table does not know
     unknown = [x for x in scan_accessors() if x not in DANGLE_SHAPES]
     wall = time.time() - t0
@@ -737,7 +753,7 @@ def check_c16(tier, seed):
 
 # ---------------------------------------------------------------- C19: feature configurations
 
-VARIANTS = ["std_nodim", "stdrelease_nodim", "stddebug_dim", "libm_dim", "libm_nodim", "micromath_dim", "micromath_nodim"]
+VARIANTS = ["std_nodim", "stdrelease_nodim", "stddebug_dim", "stdmicromath_dim", "stdlibm_dim", "libm_dim", "libm_nodim", "micromath_dim", "micromath_nodim"]
 import re as _re
 _VAL = _re.compile(r"[0-9a-f]{8}")
 
@@ -910,11 +926,11 @@ def check_c19(tier, seed, only_run=None, only_mode=None, only_build=None):
             "trace_lines_compared": ops_compared,
             "runs_per_hour": int(compared / max(wall, 1e-6) * 3600),
             "exemptions": "values of runs containing an EWMA or exponent node: libm within 1e-4 of the run's value scale, micromath category+timestamp only",
-            "components": {"real": ["every rrtk type reached by the node, comb, device and settable worlds, in eight build configurations"],
+            "components": {"real": ["every rrtk type reached by the node, comb, device and settable worlds, in ten build configurations"],
                            "stub": ["leaf sensors, clocks, motors, reference build as oracle"]},
             "exhaustive": False,
         },
-        "assumptions": ["the std + dim_check_release build is the reference; agreement of all eight builds is what is checked (seventh and eighth: the crate's default features with the rrtk package compiled without / with debug assertions)",
+        "assumptions": ["the std + dim_check_release build is the reference; agreement of all ten builds is what is checked (beyond the 3 x 2 grid: the crate's default features with the rrtk package compiled without / with debug assertions, and std together with micromath / with libm, where std's functions must win)",
                         "plan generation is build-independent (no float-library calls on the generation path that differ between builds)"] + ASSUMPTIONS[3:],
         "wall_s": round(wall, 3),
         "violations": violations,
@@ -975,6 +991,13 @@ def main():
         build_shuttle()
         r = run([SHUTTLE_BIN] + kv["args"].split() + ["--out", "/dev/null", "--dir", os.path.join(REPLAYS, "tmp", "shuttle-replay")], timeout=6 * 3600)
         if dies(r.returncode) or r.returncode == 124:
+            print("VIOLATION property=%s replay=%s" % (prop, replay))
+            sys.exit(1)
+        sys.exit(0)
+    if replay and replay.endswith(".probe"):
+        pr = run(["cargo", "build", "--release", "--offline"], cwd=os.path.join(VERIF, "callers", "unsafe_probe"), timeout=1800)
+        print(pr.stdout[-1500:])
+        if pr.returncode == 0:
             print("VIOLATION property=%s replay=%s" % (prop, replay))
             sys.exit(1)
         sys.exit(0)
